@@ -141,6 +141,25 @@ def gen_offset(rng, notation_time, allow_nominal=True):
         text = rng.choice(["P1M", "P1Y", "P1Y1M", "P11M", "P1M1D", "P4Y",
                            "P1Y2M3DT4H5M6S", "P12M"])
         return {"text": ("-" if neg else "") + text, "us": None}
+    if rng.random() < 0.08 and notation_time not in ("h_dec", "hm_dec"):
+        # the alternative, date-time-like duration notation
+        # P[YYYY]-[MM]-[DD]T[hh]:[mm]:[ss] (basic, extended or ordinal)
+        dd, hh, mi, ss = (rng.choice([0, 1, 2, 28]), rng.choice([0, 1, 23]),
+                          rng.choice([0, 30]), rng.choice([0, 15]))
+        form = rng.choice(["ext", "bas", "ord", "ext_hm"])
+        if form == "ext":
+            body = "P0000-00-%02dT%02d:%02d:%02d" % (dd, hh, mi, ss)
+        elif form == "bas":
+            body = "P000000%02dT%02d%02d%02d" % (dd, hh, mi, ss)
+        elif form == "ord":
+            dd, mi, ss = rng.choice([1, 45, 365]), 0, 0
+            body = "P0000-%03dT%02d" % (dd, hh)
+        else:
+            ss = 0
+            body = "P0000-00-%02dT%02d:%02d" % (dd, hh, mi)
+        us = ((dd * 24 + hh) * 3600 + mi * 60 + ss) * 10 ** 6
+        return {"text": ("-" if neg else "") + body,
+                "us": -us if neg else us, "alt": True}
     if notation_time == "h_dec":
         parts = rng.choice([[("1", "H")], [("15", "M")], [("45", "M")],
                             [("1", "D")], [("2", "W")], [("36", "H")],
